@@ -211,9 +211,9 @@ Definition len_contradict (that other : option lenc) : bool :=
   end.
 
 (** Semantics used by the theorems. *)
-Definition admits (c : lc) (n : Z) : Prop :=
+Definition allows (c : lc) (n : Z) : Prop :=
   match c with MinL v => v <= n | MaxL v => n <= v | ExactL v => n = v end.
-Definition admitsb (c : lc) (n : Z) : bool :=
+Definition allowsb (c : lc) (n : Z) : bool :=
   match c with MinL v => v <=? n | MaxL v => n <=? v | ExactL v => n =? v end.
 
 Definition in_range (r : lenc) (n : Z) : Prop :=
